@@ -319,6 +319,10 @@ def discharge(ctx, m, inv_ok, cr, b, bi, kind, term, T):
             a = term[2][0]
             if term_callee_is(a, 'std::sync::poison::mutex::Mutex::lock'):
                 return True, 'D3: lock().unwrap() panics only on a poisoned mutex (see D3/critical-sections-cannot-poison)'
+            if cr is ctx.mac and term_callee_is(a, 'cadence_macros::state::get_global_default'):
+                from .c17 import _is_unwrapped_global
+                if _is_unwrapped_global(ctx.mac, strip_generics(b.path)):
+                    return True, 'D6: the documented panic of the statsd_* macros when no global client is set (C17), moved into a helper of the macro crate'
         return None, ''
     # asserts
     msg = kind[7:]
@@ -402,6 +406,23 @@ def discharge(ctx, m, inv_ok, cr, b, bi, kind, term, T):
             return True, 'D5: sum/product of in-memory lengths and constants'
         return False, 'arithmetic %s on caller-controlled values can overflow: panics with overflow checks, wraps without' % fmt(inner)[:120]
     if msg.startswith('BoundsCheck'):
+        # table[variant as usize] with a table at least as long as the largest discriminant of a field-less local enum
+        c0 = norm(cond)
+        if c0[0] == 'bin' and c0[1] == 'Lt' and c0[3][0] == 'const' and c0[2][0] == 'cast' and c0[2][4][0] == 'discr':
+            try:
+                n_ = int(c0[3][2])
+            except (TypeError, ValueError):
+                n_ = None
+            enums = set()
+            for blk_ in b.blocks:
+                for s_ in blk_['stmts']:
+                    if s_['k'] == 'assign' and s_['rv']['k'] == 'discr':
+                        enums.add(type_head(s_['rv'].get('ty', '')))
+            if n_ is not None and len(enums) == 1:
+                a_ = cr.adts.get(list(enums)[0])
+                if a_ and a_['kind'] == 'Enum' and all(not v_['fields'] for v_ in a_['variants']) and \
+                        all(v_['discr'] is not None and 0 <= int(v_['discr']) < n_ for v_ in a_['variants']):
+                    return True, 'D1: index is the discriminant of %s (max %d) into a table of %d entries' % (list(enums)[0].rsplit('::', 1)[-1], max(int(v_['discr']) for v_ in a_['variants']), n_)
         return False, 'indexing can go out of bounds'
     if msg.startswith('DivisionByZero') or msg.startswith('RemainderByZero'):
         d = term
